@@ -22,10 +22,10 @@ RULE = ('CAMx-convention files (all NAME variants, 1-3 species, nx, ny 1-4, nz 1
         'format=uamiv), read back (Memmap), re-written and compared byte for byte; the model predicts the bytes '
         'and the view; slab formats (one3d, humidity, vertical diffusivity, temperature, height/pressure; 2-4 steps incl. '
         'midnight and year-end starts): written by the library writer, read back with the Memmap reader, compared with what '
-        'was written (model: Lean encoder + reader model) and re-written byte for byte; landuse files (both styles, 0-2 optional fields, the fractions under either name, optional fields created in either order): written, read back, compared with the data set and the Lean writer/reader models, re-written byte for byte; '
+        'was written (model: Lean encoder + reader model) and re-written byte for byte; year ends incl. 2000 (century leap year) with end flags derived from TSTEP; cloud/rain and lateral boundary files: reference file read, written back byte for byte and read again; landuse files (both styles, 0-2 optional fields, the fractions under either name, optional fields created in either order): written, read back, compared with the data set and the Lean writer/reader models, re-written byte for byte; '
         'non-trivial = two or more of nspec, cells, nz, nt > 1')
 ASSUMPTIONS = ['float32 <-> bits and numpy tofile/memmap are trusted',
-               'covers the uamiv family, the five slab formats and landuse; for lateral_boundary the write-back is part of C09; cloud_rain and wind round trips are not in this check']
+               'covers the uamiv family, the five slab formats, landuse, cloud_rain (3- and 5-variable files) and lateral_boundary (read, write back, same bytes); wind has no writer/reader pair of one family']
 MIN_NONTRIVIAL = {'quick': 30, 'thorough': 300}
 
 
@@ -39,6 +39,22 @@ def gen(rng, tier):
         out.append(c)
     for _ in range(n // 4):
         out.append(L.gen(rng))          # landuse: family 'land'
+    # year ends, century leap year included: steps beginning in the last hours of 30/31 December, end flags derived
+    # from the begin flags and TSTEP (no ETFLAG in the input) and taken from ETFLAG
+    for y in (1999, 2000, 2000, 2004, 2023, 2068):
+        last = 366 if (y % 4 == 0 and (y % 100 != 0 or y % 400 == 0)) else 365
+        out.append(camx.gen_uamiv_at(rng, y, rng.choice([last, last - 1]), 23, with_etflag=rng.random() < 0.3))
+    # cloud/rain (3- and 5-variable layouts) and lateral boundary files: reference file -> reader -> writer -> same bytes
+    from . import c09
+    for i in range(n // 6):
+        c = c09._gen_cr(rng, 'cread')
+        c['family'] = 'cr'
+        out.append(c)
+    for i in range(n // 8):
+        c = S.gen_bnd(rng)
+        c['family'] = 'bnd'
+        c['kind'] = 'bnd'
+        out.append(c)
     return out
 
 
@@ -67,7 +83,41 @@ def _impl_slab(case):
                 os.remove(q)
 
 
+def _impl_cr(case):
+    """reference-encoded cloud/rain file -> Memmap reader -> writer: the same bytes; and the content read back"""
+    from PseudoNetCDF.pncgen import pncgen
+    from PseudoNetCDF.camxfiles.cloud_rain.Memmap import cloud_rain
+    from . import c09
+    p1 = os.path.join(camx.tmpdir(), 'c08c_%d_%d.bin' % (os.getpid(), np.random.randint(1 << 30)))
+    p2 = p1 + '.again'
+    try:
+        with lib.pnc_warnings():
+            b = c09._cr_encode(case)
+            open(p1, 'wb').write(b)
+            f = cloud_rain(p1)
+            names = [k for k in f.variables if k not in ('TFLAG', 'ETFLAG')]
+            pncgen(f, p2, format='camxfiles.cloud_rain', verbose=0)
+            b2 = open(p2, 'rb').read()
+            g = cloud_rain(p2)
+            same = all(np.array_equal(np.asarray(f.variables[k][:]), np.asarray(g.variables[k][:])) for k in names)
+            return dict(hex=b.hex(), names=names, rewrite_same=(b == b2), reread_same=bool(same),
+                        diff_at=next((i for i, (x, y) in enumerate(zip(b, b2)) if x != y), min(len(b), len(b2))))
+    except lib.HarnessError:
+        raise
+    except Exception as e:
+        return dict(err=type(e).__name__, msg=str(e)[:120])
+    finally:
+        for q in (p1, p2):
+            if os.path.exists(q):
+                os.remove(q)
+
+
 def impl(case):
+    if case.get('family') == 'cr':
+        return _impl_cr(case)
+    if case.get('family') == 'bnd':
+        from . import c09
+        return c09._impl_bnd(case)
     if case.get('family') == 'land':
         return L.impl(case)
     if case.get('family') == 'slab':
@@ -102,6 +152,11 @@ def impl(case):
 
 
 def to_line(case, res):
+    if case.get('family') == 'cr':
+        from . import c09
+        return c09._cr_line(case)
+    if case.get('family') == 'bnd':
+        return S.bnd_line(case)
     if case.get('family') == 'land':
         return L.to_line(case, res)
     if case.get('family') == 'slab':
@@ -115,6 +170,10 @@ def to_line(case, res):
 
 
 def agree(case, out, res):
+    if case.get('family') in ('cr', 'bnd'):
+        if 'err' in res:
+            return None
+        return None if out == 'ok ' + res['hex'] else 'the python reference encoder and the Lean encoder differ'
     if case.get('family') == 'land':
         return L.agree(case, out, res)
     if case.get('family') == 'slab':
@@ -172,6 +231,22 @@ def _oracle_slab(case, res):
 
 
 def oracle(case, res):
+    if case.get('family') == 'cr':
+        from . import c09
+        if c09._cr_ambiguous(case):
+            return None
+        if 'err' in res:
+            return 'raised %s %s' % (res['err'], res.get('msg'))
+        if sorted(res['names']) != sorted(case['names']):
+            return 'the reader presents variables %s, the file holds %s' % (res['names'], case['names'])
+        if not res['rewrite_same']:
+            return 're-writing the file that was read changed the bytes (first difference at byte %d)' % res['diff_at']
+        if not res['reread_same']:
+            return 'the re-written file reads back with other values'
+        return None
+    if case.get('family') == 'bnd':
+        from . import c09
+        return c09._oracle_bnd(case, res)
     if case.get('family') == 'land':
         return L.oracle_roundtrip(case, res)
     if case.get('family') == 'slab':
@@ -207,6 +282,8 @@ def classify(case, failure, model_out):
 
 
 def nontrivial(case, res):
+    if case.get('family') in ('cr', 'bnd'):
+        return 'err' not in res
     if case.get('family') == 'land':
         return L.nontrivial(case, res)
     if case.get('family') == 'slab':
@@ -219,6 +296,9 @@ def distribution(recs):
     d = {}
     for r in recs:
         c = r['case']
+        if c.get('family') in ('cr', 'bnd'):
+            d[c['family']] = d.get(c['family'], 0) + 1
+            continue
         if c.get('family') == 'land':
             k = 'land_%s_%dopt' % ('new' if c['new'] else 'old', len(c['opts']))
             d[k] = d.get(k, 0) + 1
